@@ -10,7 +10,9 @@ implementation's own before/after directories.
 from __future__ import annotations
 
 import copy
+import json
 import os
+from pathlib import Path
 
 from .. import common
 from .. import impl_c15 as I
@@ -932,6 +934,292 @@ def guarded_case(drv, scn):
                             + ' @ ' + traceback.format_exc()[-600:]}
 
 
+
+# --------------------------------------------------------------------------
+# the fault space of the final rename (family `renamefault`)
+# --------------------------------------------------------------------------
+
+# every error rename(2) documents (+ ETXTBSY, EINTR): the classes a rename can be refused with
+RENAME2_ERRNOS = ['EACCES', 'EBUSY', 'EDQUOT', 'EEXIST', 'EFAULT', 'EINVAL', 'EIO', 'EISDIR', 'ELOOP', 'EMLINK',
+                  'ENAMETOOLONG', 'ENOENT', 'ENOMEM', 'ENOSPC', 'ENOTDIR', 'ENOTEMPTY', 'EPERM', 'EROFS', 'EXDEV',
+                  'ETXTBSY', 'EINTR']
+OSERROR_SUBCLASSES = {'PermissionError': ['EACCES', 'EPERM'], 'FileNotFoundError': ['ENOENT'], 'FileExistsError': ['EEXIST'],
+                      'IsADirectoryError': ['EISDIR'], 'NotADirectoryError': ['ENOTDIR'], 'InterruptedError': ['EINTR'],
+                      'BlockingIOError': ['EAGAIN'], 'TimeoutError': ['ETIMEDOUT'], 'ProcessLookupError': ['ESRCH'],
+                      'ChildProcessError': ['ECHILD'], 'ConnectionError': ['EPIPE'], 'BrokenPipeError': ['EPIPE']}
+MOVE_FUNCS = ('move_file', 'move_temp_file', 'remove_temp_file')
+_FSSRC = {}
+
+
+def fs_source_facts(repo=None):
+    """Read pypyr/utils/filesystem.py of the tree under test by ast: for move_file / move_temp_file / remove_temp_file
+    the calls they make (logger.* aside), whether every handler of the first two ends in a bare raise, the errno
+    names / OSError subclasses these three test for; and every errno class the MODULE distinguishes anywhere."""
+    import ast
+    import errno as E
+    repo = Path(repo or common.REPO)
+    if repo in _FSSRC:
+        return _FSSRC[repo]
+    tree = ast.parse((repo / 'pypyr' / 'utils' / 'filesystem.py').read_text(encoding='utf-8'))
+
+    def errnos_in(node):
+        out = []
+        for n in ast.walk(node):
+            if isinstance(n, ast.Attribute) and isinstance(n.value, ast.Name) and n.value.id == 'errno' and n.attr.isupper():
+                out.append(n.attr)
+            elif isinstance(n, ast.ImportFrom) and n.module == 'errno':
+                out += [a.name for a in n.names if a.name.isupper()]
+            elif isinstance(n, ast.ExceptHandler) and n.type is not None:
+                for t in ast.walk(n.type):
+                    if isinstance(t, ast.Name) and t.id in OSERROR_SUBCLASSES:
+                        out.append(t.id)
+            elif isinstance(n, ast.Compare):
+                # `ex.errno == 16`
+                sides = [n.left] + list(n.comparators)
+                if any(isinstance(x, ast.Attribute) and x.attr in ('errno', 'winerror') for x in sides):
+                    for x in sides:
+                        for c in ast.walk(x):
+                            if isinstance(c, ast.Constant) and isinstance(c.value, int) and c.value in E.errorcode:
+                                out.append(E.errorcode[c.value])
+        seen = []
+        for x in out:
+            if x not in seen:
+                seen.append(x)
+        return seen
+    funcs = {n.name: n for n in ast.walk(tree) if isinstance(n, ast.FunctionDef) and n.name in MOVE_FUNCS}
+    calls, tests, reraise = {}, [], True
+    for name in MOVE_FUNCS:
+        fn = funcs.get(name)
+        cs = []
+        if fn is not None:
+            found = sorted((n for n in ast.walk(fn) if isinstance(n, ast.Call)), key=lambda n: (n.lineno, n.col_offset))
+            cs = [ast.unparse(n.func) for n in found]
+            cs = [c for c in cs if not c.startswith('logger.')]
+            tests += [t for t in errnos_in(fn) if t not in tests]
+            if name != 'remove_temp_file':
+                for h in (n for n in ast.walk(fn) if isinstance(n, ast.ExceptHandler)):
+                    last = h.body[-1]
+                    if not (isinstance(last, ast.Raise) and last.exc is None):
+                        reraise = False
+        else:
+            reraise = False
+        calls[name] = cs
+    classes = []
+    for t in errnos_in(tree):
+        for e in OSERROR_SUBCLASSES.get(t, [t]):
+            if hasattr(E, e) and e not in classes:
+                classes.append(e)
+    _FSSRC[repo] = {'calls': calls, 'tests': tests, 'reraise': reraise, 'module_errnos': classes}
+    return _FSSRC[repo]
+
+
+def extract(env):
+    """lean/Generated/FsMove.lean: what move_file / move_temp_file / remove_temp_file of the tree under test call;
+    Props/C15.lean `move_file_is_replace_only` proves it is os.replace and the clean-up only."""
+    f = fs_source_facts()
+
+    def lst(xs):
+        return '[' + ', '.join('"' + x.replace('\\', '').replace('"', "'") + '"' for x in xs) + ']'
+    text = ('/- GENERATED by harness/props/c15.py `extract` from pypyr/utils/filesystem.py of the tree under test (ast only). '
+            'Do not edit. -/\n'
+            'namespace Pypyr.Generated.FsMove\n\n'
+            '/-- every call in the body of `move_file`, in source order, except `logger.*` -/\n'
+            f'def moveFileCalls : List String := {lst(f["calls"]["move_file"])}\n\n'
+            '/-- … of `move_temp_file` -/\n'
+            f'def moveTempFileCalls : List String := {lst(f["calls"]["move_temp_file"])}\n\n'
+            '/-- … of `remove_temp_file` -/\n'
+            f'def removeTempFileCalls : List String := {lst(f["calls"]["remove_temp_file"])}\n\n'
+            '/-- errno names / OSError subclasses the three functions test for (`ex.errno == errno.X`, `except PermissionError`, …) -/\n'
+            f'def errnoTests : List String := {lst(f["tests"])}\n\n'
+            '/-- every `except` handler of `move_file` and `move_temp_file` ends in a bare `raise` -/\n'
+            f'def handlersReraise : Bool := {"true" if f["reraise"] else "false"}\n\n'
+            'end Pypyr.Generated.FsMove\n')
+    out = common.LEAN / 'Generated' / 'FsMove.lean'
+    if not out.exists() or out.read_text() != text:
+        out.write_text(text)
+
+
+def rename_errnos():
+    """the errno classes the final rename is refused with: none at all (a bare OSError), everything rename(2) documents,
+    and every class pypyr/utils/filesystem.py of the tree under test tests for anywhere (read by ast): a branch on an
+    errno is a branch to visit"""
+    out = [None] + list(RENAME2_ERRNOS)
+    for e in fs_source_facts()['module_errnos']:
+        if e not in out:
+            out.append(e)
+    return out
+
+
+def rename_fault_monitor(scn, obs):
+    """C15 on what the implementation did after its final rename was refused, from the property text:
+    * "the source path at every instant holds either the complete original bytes or the complete new content": the
+      source is read after EVERY os / shutil / open / file call made from the refusal on, at the second fault, and at
+      the end;
+    * "if … the final rename … fails, or the process dies part-way, the original file is byte-for-byte intact": a
+      refused rename ends in an error (never in success: whatever then put new bytes into the source was not the
+      rename), with the original in place; no temp file stays unless the clean-up itself was made to fail."""
+    out = []
+    rf = scn['rf']
+    recs = obs['records']
+    fault = next((r for r in recs if 'fault' in r), None)
+    if fault is None:
+        return out
+    src = fault['dst']
+    orig, new = obs['before'].get(src), obs['ref_after'].get(src)
+    end = obs['outcome']['end']
+    sig = {'site': 'move_file', 'family': 'renamefault', 'step': scn['step'], 'errno': rf.get('errno') or 'none',
+           'second': (rf['second']['mode'] + '@' + rf['second'].get('name', '?')) if rf.get('second') else 'none'}
+
+    def what(hx):
+        return ('the complete original' if hx == orig else 'the complete new content' if hx == new
+                else 'nothing (absent)' if hx is None else f'NEITHER ({len(hx) // 2} bytes; original {len(orig) // 2}, new {len(new) // 2})')
+    for r in recs:
+        if 'src' in r and r['src'] not in (orig, new):
+            where = (f"at the injected {r.get('second')} in call #{r.get('at')} {r.get('call')}" if 'second' in r
+                     else f"after call #{r['i']} {r['call']}" if 'call' in r else 'when the rename was refused')
+            out.append((dict(sig, clause='srcWhole'),
+                        f"os.{fault['at'].split('.')[-1]} onto {src} refused ({rf.get('errno') or 'OSError without errno'}): {where} "
+                        f"the source path holds {what(r['src'])}"))
+            break
+    final = obs['after'].get(src)
+    if end == 'ok':
+        out.append((dict(sig, clause='failedRenameReported'),
+                    f"the final rename onto {src} was refused ({rf.get('errno') or 'OSError without errno'}) and the step reported "
+                    f"success; the source now holds {what(final)}"
+                    + (' written through its own inode (same st_ino): truncate + write, not a rename' if obs['same_inode'].get(src) and final != orig else '')
+                    + f"; calls made after the refusal: {[r['call'] for r in recs if 'call' in r and 'i' in r][:12]}"))
+    elif end == 'raised' and final != orig:
+        out.append((dict(sig, clause='raisedOriginalIntact'),
+                    f"the rewrite raised ({obs['outcome'].get('exc')}) after its rename onto {src} was refused, and the source holds {what(final)}"))
+    elif end == 'killed' and final not in (orig, new):
+        out.append((dict(sig, clause='killedSrcWhole'),
+                    f"the process died after the rename onto {src} was refused (second fault {sig['second']}) and the source holds {what(final)}"))
+    elif end in ('timeout', 'child-crashed'):
+        out.append((dict(sig, clause='terminates'), f"the step ended {obs['outcome']} after its rename was refused"))
+    if end == 'raised' and not rf.get('second') and obs['names_after'] != obs['names_before']:
+        extra = sorted(set(obs['names_after']) ^ set(obs['names_before']))
+        out.append((dict(sig, clause='noExtra'), f"the rewrite raised after its rename was refused and the directory entries changed: {extra}"))
+    others = {k: v for k, v in obs['after'].items() if k != src and k in obs['before'] and v != obs['before'][k]
+              and obs['ref_after'].get(k) != v}
+    if others:
+        out.append((dict(sig, clause='unmatchedSame'), f"files other than the one being renamed over changed: {sorted(others)}"))
+    return out
+
+
+def run_rename_case(scn):
+    """one `renamefault` case -> record for `absorb_rename`"""
+    obs = I.observe_rename_fault(scn)
+    # in the order the calls were ENTERED (a nested call returns, and is recorded, before the call it is made from)
+    calls = [c for _, c in sorted((r['i'], r['call']) for r in obs['records'] if 'call' in r and 'i' in r)]
+    return {'case': scn, 'obs': {'outcome': obs['outcome'], 'calls': calls,
+                                 'intact': obs['after'] == obs['before'], 'records': obs['records'][:60],
+                                 'names_after': obs['names_after']},
+            'fired': any('fault' in r for r in obs['records']), 'ref_ok': obs['ref_ok'],
+            'violations': rename_fault_monitor(scn, obs)}
+
+
+def rename_scenarios(quick):
+    keep = ('single-3',) if quick else ('single-1', 'single-3', 'list-2', 'same-dotslash', 'relative')
+    return [dict(copy.deepcopy(b), family='renamefault') for b in base_scenarios(quick) if b['layout'] in keep]
+
+
+def check_rename_faults(env, res, workers=1):
+    """Stage 1: every step x every errno class at the final rename. The model has ONE failure behaviour for a refused
+    rename (raise, original in place, temp removed): the outcome, the calls made afterwards and the directory must not
+    depend on the errno class (mismatch otherwise). Stage 2: for every distinct behaviour seen in stage 1, every call
+    made after the refusal is a fault point (raise ENOSPC before it / die before it / do half of a data-moving call,
+    then raise or die / die after the last one)."""
+    scns = rename_scenarios(env.quick)
+    errnos = rename_errnos()
+    res.extra['rename_errno_classes'] = [e or 'none' for e in errnos]
+    res.extra['errnos_tested_by_the_code'] = fs_source_facts()['module_errnos']
+    stage1 = [dict(b, rf={'errno': e, 'second': None}) for b in scns for e in errnos]
+    recs1 = _rename_run_all(env, stage1, workers)
+    groups = {}
+    for rec in recs1:
+        absorb_rename(res, rec)
+        scn = rec['case']
+        key = (scn['step'], scn['layout'])
+        base = groups.setdefault(key, {})
+        beh = json.dumps([rec['obs']['outcome'].get('end'), rec['obs']['calls'], rec['obs']['intact']])
+        base.setdefault(beh, rec)
+    stage2 = []
+    for key, behs in groups.items():
+        first = next(iter(behs.values()))
+        for beh, rec in behs.items():
+            if rec is not first:
+                res.mismatch(rec['case'],
+                             {'a refused rename, any errno class': {'end': first['obs']['outcome'].get('end'), 'calls after': first['obs']['calls'], 'directory as before': first['obs']['intact']}},
+                             {'errno ' + str(rec['case']['rf']['errno']): {'end': rec['obs']['outcome'].get('end'), 'calls after': rec['obs']['calls'], 'directory as before': rec['obs']['intact']}},
+                             'the implementation treats this errno class of the final rename differently: the model has one failure behaviour (move = atomic replace or failure)')
+            calls = rec['obs']['calls']
+            for k, name in enumerate(calls):
+                modes = ['raise', 'kill']
+                if name in I.DATA_CALLS:
+                    modes += ['partial-raise', 'partial-kill']
+                if k == len(calls) - 1:
+                    modes.append('kill-after')
+                if env.quick and rec is first and name in ('os.fspath', 'os.getpid', 'os.strerror', 'os.getcwd'):
+                    modes = modes[:1] if k % 3 == 0 else []
+                for m in modes:
+                    stage2.append(dict(rec['case'], rf={'errno': rec['case']['rf']['errno'], 'second': {'k': k, 'mode': m, 'name': name}}))
+    res.extra['rename_fault_cases'] = [len(stage1), len(stage2)]
+    for rec in _rename_run_all(env, stage2, workers):
+        absorb_rename(res, rec)
+
+
+def _rename_worker(scn):
+    common.use_repo()
+    return guarded_rename_case(scn)
+
+
+def guarded_rename_case(scn):
+    try:
+        with time_limit(CASE_TIMEOUT):
+            return run_rename_case(scn)
+    except (common.Infra, KeyboardInterrupt):
+        raise
+    except CaseTimeout as e:
+        return {'case': scn, 'timeout': str(e)}
+    except BaseException as e:   # noqa: BLE001
+        import traceback
+        return {'case': scn, 'error': ''.join(traceback.format_exception_only(type(e), e)).strip() + ' @ ' + traceback.format_exc()[-500:]}
+
+
+def _rename_run_all(env, scns, workers):
+    if workers <= 1 or len(scns) < 8:
+        return [guarded_rename_case(s) for s in scns]
+    import multiprocessing as mp
+    with mp.get_context('fork').Pool(workers) as pool:
+        return pool.map(_rename_worker, scns, chunksize=4)
+
+
+def absorb_rename(res, rec):
+    scn = rec['case']
+    rf = scn['rf']
+    res.case(scn, nontrivial=True)
+    res.count('renamefault')
+    res.count('renamefault:errno:' + str(rf.get('errno') or 'none'))
+    res.count('renamefault:step:' + scn['step'])
+    if rf.get('second'):
+        res.count('renamefault:second:' + rf['second']['mode'] + '@' + rf['second'].get('name', '?'))
+    if rec.get('timeout') or rec.get('error'):
+        if rec.get('timeout'):
+            res.violation(scn, f"the step did not return after its rename was refused: {rec['timeout']}",
+                          signature={'site': 'move_file', 'family': 'renamefault', 'step': scn['step'], 'clause': 'terminates'},
+                          impl={'end': 'timeout'})
+        else:
+            res.mismatch(scn, None, {'harness error': rec['error']}, 'harness error in the renamefault family')
+        return
+    res.count('renamefault:end:' + str(rec['obs']['outcome'].get('end')))
+    if not rec['ref_ok']:
+        res.mismatch(scn, {'reference run': 'ok'}, {'reference run': 'failed'}, 'the fault-free reference run failed')
+    if not rec['fired']:
+        res.mismatch(scn, {'final step': 'os.replace / os.rename onto the source'}, {'calls': rec['obs']['calls'], 'end': rec['obs']['outcome']},
+                     'an in-place rewrite finished without any os.replace / os.rename onto the source: the model ends in a rename')
+    for sig, detail in rec['violations'][:3]:
+        res.violation(scn, f"{sig['clause']}: {detail}", signature=sig, impl=rec['obs'])
+
 # --------------------------------------------------------------------------
 # sharded execution
 # --------------------------------------------------------------------------
@@ -1061,6 +1349,8 @@ def run(env, res):
         cases += [with_fault(b, f) for f in pts]
     for r in run_all(env, cases, workers):
         absorb(res, r)
+    # phase 3: the fault space of the final rename
+    check_rename_faults(env, res, workers)
     res.extra['base_scenarios'] = len(bases)
     res.extra['fault_plans'] = len(cases)
     res.extra['mode_after_inplace'] = {k.split(':', 1)[1]: v for k, v in res.distribution.items()
@@ -1073,4 +1363,9 @@ def replay(env, res, payload):
         scn = payload['first_diverging_case'].get('case')
     if scn is None:
         scn = payload
+    if scn.get('family') == 'renamefault' and scn.get('rf'):
+        rec = guarded_rename_case(scn)
+        absorb_rename(res, rec)
+        res.extra['replayed'] = rec.get('obs')
+        return
     absorb(res, guarded_case(env.driver, scn))
